@@ -20,7 +20,7 @@ ENCODED = [
     "kappadata.caching.cached_dataset:CachedDataset.__getattr__",
 ]
 STUBS = [
-    "Base: dataset of n samples returning ('s', i, payload_i) with symbolic payloads (payload 0 = the sample is None), counting loads per index",
+    "Base: dataset of n samples returning ('s', i, payload_i) with opaque payload tokens (in half of the conditions sample 0 is None itself), counting loads per index",
     "InterferenceDict: stands for the multiprocessing Manager dict; before each of its operations another process may insert a correct entry for an arbitrary key, or clear it (symbolic script)",
     "FakeManager: multiprocessing.Manager() replaced so that .dict() returns the harness dict (the real constructor runs, no Manager process is spawned); forked reader processes are shallow copies of the dataset object sharing that dict",
 ]
@@ -86,11 +86,12 @@ def fork_readers(c, k, d):
         return [copy.copy(c) for _ in range(k)]
 
 
-def body_seq(cfg, p0, p1, p2, p3, *ops):
+def body_seq(cfg, *ops):
     """sequential history. cfg = (n, L, with_transform); ops[k] = -1 clear, else index"""
     n, L, with_t = cfg[:3]
     nreaders = cfg[3] if len(cfg) > 3 else 1
-    payload = [p0, p1, p2, p3][:n]
+    none_idx = cfg[4] if len(cfg) > 4 else -1
+    payload = [0 if k == none_idx else 10 + k for k in range(n)]  # payload 0: the sample itself is None
     base = Base(n, payload)
     t = CountingTransform() if with_t else None
     loaded_since_clear = [False] * n
@@ -183,11 +184,12 @@ class InterferenceDict(dict):
         dict.clear(self)
 
 
-def body_shared(cfg, p0, p1, p2, *rest):
+def body_shared(cfg, *rest):
     """cfg = (n, accesses); rest = indices of our accesses followed by the interference script
     (-2 nothing, -1 clear, k>=0 another process inserts the correct entry k)"""
-    n, acc = cfg
-    payload = [p0, p1, p2][:n]
+    n, acc = cfg[:2]
+    none_idx = cfg[2] if len(cfg) > 2 else -1
+    payload = [0 if k == none_idx else 10 + k for k in range(n)]
     idxs = rest[:acc]
     script = rest[acc:]
     base = Base(n, payload)
@@ -217,22 +219,22 @@ def conditions(tier, rng):
                     continue
                 if L >= 2 and (not q or with_t):
                     conds.append(Cond(
-                        name=f"seq-2readers[n={n},L={L},transform={int(with_t)}]", harness=H, body="body_seq", cfg=(n, L, with_t, 2),
-                        params=[(f"p{k}", "int") for k in range(4)] + [(f"o{k}", "int") for k in range(L)],
+                        name=f"seq-2readers[n={n},L={L},transform={int(with_t)}]", harness=H, body="body_seq", cfg=(n, L, with_t, 2, 0 if L % 2 else -1),
+                        params=[(f"o{k}", "int") for k in range(L)],
                         pre=[f"-1 <= o{k} < {n}" for k in range(L)], timeout=to, group="sequential-history-two-forked-readers", cost=(n + 1) ** L,
                         bounds=f"{n} samples, {L} symbolic operations performed alternately by two reader processes forked before the first access"))
                 conds.append(Cond(
-                    name=f"seq[n={n},L={L},transform={int(with_t)}]", harness=H, body="body_seq", cfg=(n, L, with_t),
-                    params=[(f"p{k}", "int") for k in range(4)] + [(f"o{k}", "int") for k in range(L)],
+                    name=f"seq[n={n},L={L},transform={int(with_t)}]", harness=H, body="body_seq", cfg=(n, L, with_t, 1, 0 if (L + n) % 2 else -1),
+                    params=[(f"o{k}", "int") for k in range(L)],
                     pre=[f"-1 <= o{k} < {n}" for k in range(L)], timeout=to, group="sequential-history", cost=(n + 1) ** L,
-                    bounds=f"{n} samples, history of {L} symbolic operations, symbolic payloads"))
+                    bounds=f"{n} samples, history of {L} symbolic operations, opaque payloads (sample 0 may be None)"))
     for n in (1, 2, 3):
         for acc, S in (((1, 3), (2, 4)) if q else ((1, 3), (1, 4), (2, 4), (2, 5))):
             if acc == 2 and (n + 2) ** S * n * n > (700 if q else 5000):
                 continue
             conds.append(Cond(
-                name=f"shared[n={n},accesses={acc},script={S}]", harness=H, body="body_shared", cfg=(n, acc),
-                params=[(f"p{k}", "int") for k in range(3)] + [(f"i{k}", "int") for k in range(acc)] + [(f"s{k}", "int") for k in range(S)],
+                name=f"shared[n={n},accesses={acc},script={S}]", harness=H, body="body_shared", cfg=(n, acc, 0 if n % 2 else -1),
+                params=[(f"i{k}", "int") for k in range(acc)] + [(f"s{k}", "int") for k in range(S)],
                 pre=[f"0 <= i{k} < {n}" for k in range(acc)] + [f"-2 <= s{k} < {n}" for k in range(S)],
                 timeout=to, group="shared-with-interference", cost=(n + 2) ** S * n ** acc,
                 bounds=f"{n} samples, {acc} accesses of this reader, {S} symbolic interference steps (insert correct entry | clear | nothing) before successive dict operations"))
